@@ -16,7 +16,7 @@ ASSUMPTIONS = ["strict reader mc/rp66.py", "reference model mc/model.py"]
 
 # every object kind that owns a set type of its own appears in the alphabet: the order of sets in the file depends on
 # which set types exist and when they were first touched (e.g. WELL-REFERENCE shares the record type of ORIGIN)
-C09_QUICK = hist.QUICK_EVENTS + ['WR', 'EQ', 'CP']
+C09_QUICK = hist.QUICK_EVENTS + ['WR', 'EQ', 'CP', 'ZNE']
 
 
 def _events(tier):
